@@ -17,7 +17,12 @@ CLAIM = dict(
          "rank-mismatch class); Take, Drop, Rotate, Reverse, Split, Enumerate, First, Size: implementation model "
          "(Python slicing / tile / concatenate / roll arithmetic) = reference for every vector length and every "
          "integer count. Model tied to klongpy by evaluating verbs x universe through the real interpreter; the "
-         "dispatch tables are regenerated from the source on every run. Remaining verbs: reference oracle only.",
+         "dispatch tables are regenerated from the source on every run. Every other verb of the reference (Cut, Join, "
+         "Index, Find, Match, Atom, List, Not, Expand, Floor, Transpose, Grade, Range, Group, Shape, Reshape, Amend, "
+         "Amend-in-Depth, Index-in-Depth, Divide, Reciprocal, Power, Char, Undefined, Format, Format2, Form) has a reference "
+         "function, an implementation model and an implementation = reference theorem on the modelled operand classes "
+         "(C01Ext1-4); outside those classes the reference oracle alone compares. Every application is also evaluated with "
+         "computed atoms and with operands held in variables, which must be unchanged afterwards.",
     note="trusted: Lean kernel, numpy's element-wise ufunc semantics and slicing (modelled), the reference transcription "
          "(validated against the docstring examples), canonicaliser; reals tied by tolerance only; int64 overflow excluded",
     technique="Lean 4 impl=reference proofs per verb (induction over nested values / list index arithmetic), "
